@@ -262,8 +262,10 @@ class Bin(V):
                 # that STARTS with a parenthesis is taken for the imm(reg) syntax by loads, stores and jalr)
                 return '(' + s + ')'
             return s
-        sp = ' ' if st.pick(2, 'binsp') else ''
-        return side(self.a, False) + sp + self.op + sp + side(self.b, True)
+        k = st.pick(6, 'binsp')
+        # blanks on both sides, on neither, or (now and then) on one side only: `17 %10`, `K- 1`
+        sp_l, sp_r = [('', ''), (' ', ''), ('', ' '), ('', ''), (' ', ' '), (' ', ' ')][k]      # (style 0 picks the last one)
+        return side(self.a, False) + sp_l + self.op + sp_r + side(self.b, True)
 
     def labels(self):
         return self.a.labels() | self.b.labels()
